@@ -88,6 +88,7 @@ fn main() {
             // a request body the endpoint never reads (large, or announced with Expect: 100-continue)
             plans.push((vec![Kind::GateBody], true, false));
             plans.push((vec![Kind::GateExpect], true, false));
+            plans.push((vec![Kind::GateUpgrade], true, false));
             // (known finding L lives here; every failing history costs three 10 s waits, so the quick tier
             // covers this world's transitions once instead of walking all its paths)
             plans.push((vec![Kind::GateBodySplit], false, false));
@@ -105,6 +106,7 @@ fn main() {
         (Tier::Thorough, false) => {
             plans.push((vec![Kind::GateBody], true, true));
             plans.push((vec![Kind::GateExpect], true, true));
+            plans.push((vec![Kind::GateUpgrade], true, true));
             plans.push((vec![Kind::GateBodySplit], true, true));
             plans.push((vec![Kind::Gate, Kind::GateBody], false, false));
             plans.push((vec![Kind::Gate], true, true));
